@@ -474,7 +474,48 @@ func NewPowerLevelContentFromEvent(event PDU) (c PowerLevelContent, err error) {
 // parseIntegerPowerLevels unmarshals directly to PowerLevelContent, since that will kick up an
 // error if one of the power levels isn't an int64.
 func parseIntegerPowerLevels(contentBytes []byte, c *PowerLevelContent) error {
+	// ... except for null, which encoding/json skips without an error, whether it stands
+	// for a level or for a whole map of levels: null is neither an integer nor an object.
+	var nulls struct {
+		Ban           notNullLevel  `json:"ban"`
+		Invite        notNullLevel  `json:"invite"`
+		Kick          notNullLevel  `json:"kick"`
+		Redact        notNullLevel  `json:"redact"`
+		Users         notNullLevels `json:"users"`
+		UsersDefault  notNullLevel  `json:"users_default"`
+		Events        notNullLevels `json:"events"`
+		EventsDefault notNullLevel  `json:"events_default"`
+		StateDefault  notNullLevel  `json:"state_default"`
+		Notifications notNullLevels `json:"notifications"`
+	}
+	if err := json.Unmarshal(contentBytes, &nulls); err != nil {
+		return err
+	}
 	return json.Unmarshal(contentBytes, c)
+}
+
+// A notNullLevel unmarshals from any JSON value but null.
+type notNullLevel struct{}
+
+func (*notNullLevel) UnmarshalJSON(data []byte) error {
+	if string(data) == "null" {
+		return fmt.Errorf("power level is null")
+	}
+	return nil
+}
+
+// notNullLevels unmarshals from a JSON object that has no null value.
+type notNullLevels struct{}
+
+func (*notNullLevels) UnmarshalJSON(data []byte) error {
+	var levels map[string]notNullLevel
+	if err := json.Unmarshal(data, &levels); err != nil {
+		return err
+	}
+	if levels == nil {
+		return fmt.Errorf("map of power levels is null")
+	}
+	return nil
 }
 
 func parsePowerLevels(contentBytes []byte, c *PowerLevelContent) error {
